@@ -291,7 +291,7 @@ func f10cRace(k int) []string {
 var states = []string{"idle", "mid", "zero-c2s", "zero-s2c", "full", "zero+full"}
 
 func (P) Gen(r *core.Rand, tier string, emit func([]string)) {
-	rounds := 1
+	rounds := 2
 	if tier == "thorough" {
 		rounds = 8
 	}
